@@ -156,4 +156,27 @@ theorem double_only_puts_add_and_they_broadcast :
       = ["Put1", "Put2", "PutForce1", "PutForce2"] ∧
     broadcasters RequestDoubleQueue.facts = ["Put1", "Put2", "PutForce1", "PutForce2"] := by decide
 
+/-! ### known finding `RequestDoubleQueue:callbacks-unsettable`, characterised on the source facts -/
+
+/-- the methods of `T` that assign one of the fields `flds` -/
+def assigners (T : TypeFacts) (flds : List String) : List String :=
+  (T.methods.filter (fun M => (M.accHeld ++ M.accFree).any (fun a => a.write && flds.contains a.root))).map (·.name)
+
+/-- the methods of `T` that invoke one of the function-valued fields `flds` -/
+def invokers (T : TypeFacts) (flds : List String) : List String :=
+  (T.methods.filter (fun M => flds.any (fun f => M.callbacksHeld.contains f))).map (·.name)
+
+/-- The double queue's four callbacks are fields of the struct whose names are not exported and that
+    no method of the type assigns (they can only be set from inside package `queue`, which never does),
+    although Put1/Put2/PutForce1/PutForce2 would invoke them: through the public API a refused or
+    evicted element of the double queue is reported to nobody.  The single queue's callbacks are
+    exported fields (`Failed`, `Overflowed`) and are invoked by Put / PutForce. -/
+theorem double_queue_callbacks_never_assigned :
+    ["failed1", "overflowed1", "failed2", "overflowed2"].all (RequestDoubleQueue.facts.fields.contains ·) = true ∧
+    assigners RequestDoubleQueue.facts ["failed1", "overflowed1", "failed2", "overflowed2"] = [] ∧
+    invokers RequestDoubleQueue.facts ["failed1", "overflowed1", "failed2", "overflowed2"]
+      = ["Put1", "Put2", "PutForce1", "PutForce2"] ∧
+    ["Failed", "Overflowed"].all (RequestQueue.facts.fields.contains ·) = true ∧
+    invokers RequestQueue.facts ["Failed", "Overflowed"] = ["Put", "PutForce"] := by decide
+
 end C11Gen
